@@ -141,6 +141,8 @@ static void show_fail(TestReporter *reporter, const char *file, int line,
         }
         memo->printer("\n");
         memo->previous_error = 1;
+        /* the test process may be killed later, don't let the message die with it */
+        fflush(NULL);
     }
 }
 
